@@ -933,6 +933,26 @@ def unmarshal (c : Cfg) (ty : Ty) (j : J) : Except Err Val :=
     | _ => .error .unsupported
   | _ => .error .outside
 
+/-! ## the YAML front end -/
+
+mutual
+/-- what `encoding.YamlToJson` does to the nulls of a document (`asIs = true`, the code: `toStringKeyMap` sends a YAML null
+through `lang.Repr(nil)` and hands on the empty *string*, at every depth); `asIs = false`: a front end that keeps nulls
+(JSON, TOML has none) -/
+def yamlNulls (asIs : Bool) : J → J
+  | .null => if asIs then .str [] else .null
+  | .arr l => .arr (yamlNullsL asIs l)
+  | .obj m => .obj (yamlNullsO asIs m)
+  | j => j
+def yamlNullsL (asIs : Bool) : List J → List J
+  | [] => []
+  | j :: rest => yamlNulls asIs j :: yamlNullsL asIs rest
+def yamlNullsO (asIs : Bool) : List (Str × J) → List (Str × J)
+  | [] => []
+  | (k, j) :: rest => (k, yamlNulls asIs j) :: yamlNullsO asIs rest
+end
+
+
 /-! ## core/mapping/valuer.go: simple and recursive (inherit) lookups
 
 A struct nested in a struct is unmarshalled from a node whose parent is the valuer of the enclosing field, so a lookup
